@@ -1,5 +1,5 @@
 # C16 - every bitmap implementation behaves as a set of integers
-import json, os, subprocess
+import json, os, subprocess, hashlib
 import e2v
 
 TYPES = {"ba": 1, "rb": 2}
@@ -200,7 +200,7 @@ def run(res, replay=None):
     ]
     res.assumptions = ["the legacy 32-bit bitmaps (gen_bitmap.c), ext2fs_fudge_generic_bmap_end and allocation failure are not modelled: partial",
                        "array alignment in the C run is whatever malloc returns (al = 0); the theorem covers every alignment"]
-    res.cov["partial"] = ["ext2fs_resize_generic_bmap is modelled (BmResize.v: the common range is kept, the rest reads clear); fudge_end and allocation failure are not", "legacy 32-bit bitmap (gen_bitmap.c) covered by correspondence of the 64-bit API only"]
+    res.cov["partial"] = ["ext2fs_resize_generic_bmap is modelled (BmResize.v: the common range is kept, the rest reads clear); fudge_end and allocation failure are not", "legacy 32-bit bitmap (gen_bitmap.c): single bits, bulk get/set, clear and resize are compared with the reference set on in-range requests; its find-first, range-test and error behaviour is not"]
     mexe = e2v.build_driver("bitmap", ["theories/Bitmap/RBModel.vo", "theories/Bitmap/BAModel.vo", "theories/Bitmap/BmResize.vo"], ["bitmap_model"])
 
     if replay:
@@ -233,6 +233,50 @@ def run(res, replay=None):
         except IndexError:
             return True
 
+    # ---- the legacy 32-bit back end: single bits, bulk get/set at any alignment, clear, resize (shrink, grow) - in-range
+    # requests only, no clusters - against the same reference set
+    def legacy_cases(nl):
+        rr = e2v.rng(seed, "c16legacy")
+        out_ = [((0, 100, 100, 0), ["MR 0 64", "RS 10 10", "RS 100 100"] + ["T %d" % i for i in range(8, 20)]),
+                ((0, 63, 63, 0), ["M 21", "GR 19 8", "GR 16 8", "SR 19 8 00100001", "GR 16 16", "T 19", "T 21", "T 26"])]
+        for _ in range(nl):
+            st = rr.choice([0, 0, 1, 8])
+            en = st + rr.randint(10, 300)
+            geom = (st, en, en, 0)
+            ops_ = []
+            for _ in range(rr.randint(5, 40)):
+                k = rr.random()
+                p_ = rr.randint(st, en)
+                if k < 0.25:
+                    ops_.append("M %d" % p_)
+                elif k < 0.35:
+                    ops_.append("U %d" % p_)
+                elif k < 0.55:
+                    ops_.append("T %d" % p_)
+                elif k < 0.7:
+                    ops_.append("GR %d %d" % (p_, rr.randint(1, en - p_ + 1)))
+                elif k < 0.82:
+                    n_ = rr.randint(1, en - p_ + 1)
+                    ops_.append("SR %d %d %s" % (p_, n_, "".join(rr.choice("01") for _ in range(n_))))
+                elif k < 0.86:
+                    ops_.append("CL")
+                else:
+                    en = max(st + 2, en + rr.choice([-40, -9, -7, -1, 1, 7, 9, 40, 100]))
+                    ops_.append("RS %d %d" % (en, en))
+            out_.append((geom, ops_))
+        return out_
+    lcases = legacy_cases(300 if tier == "quick" else 20000)
+    ltext = lambda typ: "\n".join("\n".join(["G %d %d %d %d %d" % (typ, g[0], g[1], g[2], g[3])] + ops_) for g, ops_ in lcases) + "\n"
+    l_impl = split_groups(run_prog([hexe], ltext(0)))
+    l_spec = split_groups(run_prog([mexe, "fs"], ltext(2)))
+    lbad = [(lcases[i][0], lcases[i][1], l_impl[i] if i < len(l_impl) else None, l_spec[i] if i < len(l_spec) else None)
+            for i in range(len(lcases)) if i >= len(l_impl) or i >= len(l_spec) or l_impl[i] != l_spec[i]]
+    res.cov["legacy_32bit"] = {"histories": len(lcases), "mismatches": len(lbad), "operations": "mark/unmark/test, get/set range at any alignment, clear, resize down and up"}
+    for g_, ops_, a_, b_ in lbad[:2]:
+        k_ = next((j for j in range(min(len(a_ or []), len(b_ or []))) if a_[j] != b_[j]), None)
+        res.violation("oracle", {"geom": list(g_), "ops": ops_, "backend": "legacy 32-bit (gen_bitmap.c)", "first_difference_at_row": k_,
+                                 "implementation": (a_ or [])[k_] if k_ is not None else None, "reference_set": (b_ or [])[k_] if k_ is not None else None},
+                      signature="c16legacy:" + hashlib.sha256(json.dumps([g_, ops_]).encode()).hexdigest()[:12])
     stats = {"ops": {}, "geoms": {"cbits": {}, "start": {}}, "results": {}}
     mism_corr, mism_oracle = [], []
     CH = 2000
